@@ -112,6 +112,7 @@ var mandatory = map[string]bool{
 	"actor.op":             true,
 	"life.wait":            true,
 	"serve.retrywait":      true,
+	"serve.wait":           true,
 	"keylock.wake":         true,
 	"updateIndex.start":    true,
 	"handleChange.afterDo": true,
